@@ -176,7 +176,9 @@ def tr1(ctx, R):
             if isinstance(c, ast.Call) and isinstance(c.func, ast.Attribute) and c.func.attr == "postprocess_data" and c.args:
                 sites.append((f, c))
     if not sites:
-        raise AnchorMissing("daqmx.DaqmxDataReader: postprocess_data call")
+        R.unrecognised("daqmx.DaqmxDataReader._read_data_chunk::scaler values", main.where(), "no `<scaler>.postprocess_data(...)` call in the chunk reader or the "
+                       "helpers it calls directly: where scaler values are cut out of the buffer rows was not recognised")
+        return
     for f, c in sites:
         sy = Sym(prog, f, f.cls, stack=keep)
         env, guards = sy.env_at(c)
@@ -245,7 +247,13 @@ def tr1(ctx, R):
                         "was not recognised")
             continue
         if not eqs:
-            R.violation(key, main.where(c), "scalers are not matched to the buffer by raw_buffer_index == position of the buffer (no such test guards the decoding)")
+            if any(isinstance(x, ast.Attribute) and x.attr == "raw_buffer_index" for x in ast.walk(main.node)):
+                # the buffer index is used, but not in an equality test that guards the decoding (e.g. scalers grouped by it beforehand)
+                R.unrecognised(key, main.where(c), "raw_buffer_index is used in %s, but not in a test that guards the decoding: how scalers are matched to "
+                               "their buffer was not recognised" % main.qual)
+            else:
+                R.violation(key, main.where(c), "scalers are not matched to the buffer by raw_buffer_index == position of the buffer (the buffer index of a "
+                            "scaler is not looked at)")
             continue
         it, bv = outer[0]
         good = False
